@@ -3,18 +3,10 @@
    conforms   : the statement of C03 as a structural type checker over pv, written without
                 looking at unm: runtime class at every position, members by their own
                 annotation, fixed tuples of exactly the declared arity, TypedDicts made of
-                declared keys with every required key present.
-   c03_guard  : the positions of an annotation at which Core.unm (= the code at /repo HEAD
-                before the two C03 repairs) is NOT claimed to conform: fixed tuples and
-                TypedDicts that have a required key.
-   unm_fixed  : ******** LOCAL COPY of Core.unm with the two proposed repairs ********
-                (FixedTupleUnmarshaller raises on too few members; StructuredTypeUnmarshaller
-                raises on a missing required TypedDict key).  It differs from Core.unm in the
-                TTuple arm and in construct_class_fixed only.  When Core.v gets the edit
-                described in notes/C03.md this copy is replaced by Core.unm.
-
-   `required c f` : key f of TypedDict class c is required (Core.classdef carries no
-   totality flag; total=False / NotRequired are described by this function). *)
+                declared keys with every required key (classdef.crequired) present.
+   unm_pinned : FROZEN COPY of Core.unm as it was before the two C03 repairs (f089b75 fixed-tuple
+                arity, 6b21d1e TypedDict required keys), kept only so that the refutation
+                witnesses of Props/C03.v stay on record.  Nothing else uses it. *)
 From Coq Require Import List Arith Bool PeanoNat.
 Import ListNotations.
 Require Import TL.Model.Core TL.Model.CoreTables.
@@ -33,7 +25,6 @@ Section C03.
 Variable rt : runtime.
 Variable E : env.
 Variable leaf_ok : nat -> pv -> bool.       (* v is an instance of leaf type s (declared member for Enum / Literal) *)
-Variable required : nat -> nat -> bool.
 
 (* a field value: conforms to the field's annotation, or is the default the class itself declares
    for that field (the class author's business, not typelib's) *)
@@ -76,7 +67,7 @@ Fixpoint conforms (fuel : nat) (t : ty) (v : pv) {struct fuel} : bool :=
                                                | Some ft => conforms n ft (snd kv)
                                                | None => false end
                                    | _ => false end) l &&
-                forallb (fun fd => negb (required c (fname fd)) || has_key (fname fd) l) (cfields cd)
+                forallb (fun fd => negb (existsb (Nat.eqb (fname fd)) (crequired cd)) || has_key (fname fd) l) (cfields cd)
             | _, _ => false
             end
         end
@@ -84,49 +75,18 @@ Fixpoint conforms (fuel : nat) (t : ty) (v : pv) {struct fuel} : bool :=
     end
   end.
 
-(* positions where the unrepaired routines are not claimed to conform *)
-Fixpoint c03_guard (fuel : nat) (t : ty) {struct fuel} : bool :=
-  match fuel with
-  | 0 => true
-  | S n =>
-    match t with
-    | TLeaf _ | TRefLeaf _ | TNone => true
-    | TSeq _ a => c03_guard n a
-    | TMap _ kt vt => c03_guard n kt && c03_guard n vt
-    | TTuple _ => false
-    | TUnion ts => forallb (c03_guard n) ts
-    | TName c | TRef c | TAliasStr _ c =>
-        match E c with
-        | None => true
-        | Some (NType t') => c03_guard n t'
-        | Some (NClass cd) =>
-            forallb (fun fd => c03_guard n (fty fd)) (cfields cd) &&
-            match cflavour cd with
-            | FTypedDict => negb (existsb (fun fd => required c (fname fd)) (cfields cd))
-            | _ => true
-            end
-        end
-    | TNewType _ t' | TAlias _ t' | TFinal t' | TClassVar t' | TRefTo t' => c03_guard n t'
-    end
-  end.
-
 (* ------------------------------------------------------------------------------------
-   LOCAL COPY of Core.unm with the two repairs (see header).
+   FROZEN COPY of Core.unm before the repairs (see header): zip truncation in the TTuple arm,
+   no required-key check for TypedDicts.
    ------------------------------------------------------------------------------------ *)
-Definition has_kw (f : nat) (kw : list (nat * pv)) : bool :=
-  match kw_lookup f kw with Some _ => true | None => false end.
-
-Definition construct_class_fixed (c : nat) (cd : classdef) (kw : list (nat * pv)) : res pv :=
+Definition construct_class_pinned (c : nat) (cd : classdef) (kw : list (nat * pv)) : res pv :=
   match cflavour cd with
-  | FTypedDict =>
-      if forallb (fun fd => negb (required c (fname fd)) || has_kw (fname fd) kw) (cfields cd)
-      then Ok (PDict KDict (map (fun fv => (PKey (fst fv), snd fv)) kw))
-      else Raise EType                            (* a required key is missing *)
+  | FTypedDict => Ok (PDict KDict (map (fun fv => (PKey (fst fv), snd fv)) kw))
   | FNamedTuple => bind (fill_fields (cfields cd) kw) (fun l => Ok (PNamed c (map snd l)))
   | FDataclass | FPlain => bind (fill_fields (cfields cd) kw) (fun l => Ok (PObj c l))
   end.
 
-Fixpoint unm_fixed (fuel : nat) (t : ty) (x : pv) {struct fuel} : res pv :=
+Fixpoint unm_pinned (fuel : nat) (t : ty) (x : pv) {struct fuel} : res pv :=
   match fuel with
   | 0 => OutOfFuel
   | S n =>
@@ -135,52 +95,44 @@ Fixpoint unm_fixed (fuel : nat) (t : ty) (x : pv) {struct fuel} : res pv :=
     | TNone => none_u rt x
     | TSeq k a =>
         bind (load rt x) (fun d => bind (itervalues rt d) (fun vs =>
-        bind (mapM (unm_fixed n a) vs) (fun rs => construct_seq rt k rs)))
+        bind (mapM (unm_pinned n a) vs) (fun rs => construct_seq rt k rs)))
     | TMap k kt vt =>
         bind (load rt x) (fun d => bind (iteritems rt E d) (fun kvs =>
-        bind (mapM (fun kv => bind (unm_fixed n kt (fst kv)) (fun k' =>
-                              bind (unm_fixed n vt (snd kv)) (fun v' => Ok (k', v')))) kvs)
+        bind (mapM (fun kv => bind (unm_pinned n kt (fst kv)) (fun k' =>
+                              bind (unm_pinned n vt (snd kv)) (fun v' => Ok (k', v')))) kvs)
              (fun rs => construct_map rt k rs)))
     | TTuple ts =>
         bind (load rt x) (fun d => bind (itervalues rt d) (fun vs =>
-        if Nat.ltb (length vs) (length ts) then Raise EValue          (* REPAIR 1: too few members *)
-        else
-        bind (mapM (fun tv => unm_fixed n (fst tv) (snd tv)) (zip_trunc ts vs)) (fun rs => Ok (PSeq KTuple rs))))
-    | TUnion ts => first_ok rt (map (unm_fixed n) (union_stack_u ts)) x
+        bind (mapM (fun tv => unm_pinned n (fst tv) (snd tv)) (zip_trunc ts vs)) (fun rs => Ok (PSeq KTuple rs))))
+    | TUnion ts => first_ok rt (map (unm_pinned n) (union_stack_u ts)) x
     | TName c | TRef c | TAliasStr _ c =>
         match E c with
         | None => Raise EOther
-        | Some (NType t') => unm_fixed n t' x
+        | Some (NType t') => unm_pinned n t' x
         | Some (NClass cd) =>
             bind (load rt x) (fun d => bind (iteritems rt E d) (fun kvs =>
             bind (fold_left (fun acc kv =>
                     bind acc (fun kw =>
                       match fst kv with
                       | PKey f => match field_ty cd f with
-                                  | Some ft => bind (unm_fixed n ft (snd kv)) (fun v' => Ok (kw_set f v' kw))
+                                  | Some ft => bind (unm_pinned n ft (snd kv)) (fun v' => Ok (kw_set f v' kw))
                                   | None => Ok kw end
                       | k => if unhashable rt k then Raise EType else Ok kw
                       end)) kvs (Ok []))
-                 (fun kw => construct_class_fixed c cd kw)))       (* REPAIR 2: required keys *)
+                 (fun kw => construct_class_pinned c cd kw)))
         end
-    | TNewType _ t' | TAlias _ t' | TFinal t' | TClassVar t' | TRefTo t' => unm_fixed n t' x
+    | TNewType _ t' | TAlias _ t' | TFinal t' | TClassVar t' | TRefTo t' => unm_pinned n t' x
     end
   end.
 
 End C03.
 
 (* ---- correspondence helpers (used by generated cases files) ---- *)
-(* unmarshal cases are evaluated with the repaired semantics, marshal cases with Core.mar *)
-Definition case_ok_fixed (rt : runtime) (E : env) (required : nat -> nat -> bool)
-           (fuel : nat) (strict : bool) (c : case) : bool :=
-  match c with (dir, t, x, obs) =>
-    res_sim strict (if dir then unm_fixed rt E required fuel t x else mar rt E fuel t x) obs end.
-
 (* finite leaf_ok table; a missing entry counts as "not ok" *)
 Definition mk_leaf_ok (tbl : list (nat * pv * bool)) : nat -> pv -> bool :=
   fun s v => match lookup_leaf s v tbl with Some b => b | None => false end.
 
 (* verdict of the Coq checker on one (annotation, value) compared with an expected verdict *)
-Definition verdict_ok (rt : runtime) (E : env) (lo : nat -> pv -> bool) (required : nat -> nat -> bool)
+Definition verdict_ok (rt : runtime) (E : env) (lo : nat -> pv -> bool)
            (fuel : nat) (c : ty * pv * bool) : bool :=
-  match c with (t, v, expected) => Bool.eqb (conforms rt E lo required fuel t v) expected end.
+  match c with (t, v, expected) => Bool.eqb (conforms rt E lo fuel t v) expected end.
